@@ -234,6 +234,23 @@ pub fn threshold_programs() -> Vec<HistoryCase> {
         }
         out.push(HistoryCase::plain(&format!("threshold-program:deep-{}-{}", label, depth), vec![Doc::plain(cur)]));
     }
+    // very deep chains of distinct names (each level a struct): 66 and 90 levels
+    for depth in [66usize, 90] {
+        let mut cur = text_leaf("t", &mut val);
+        let mut bottom = Elem::new(&format!("n{}", depth));
+        bottom.attrs.push(("id".into(), val()));
+        bottom.items.push(Item::Elem(cur));
+        cur = bottom;
+        for d in (1..depth).rev() {
+            let mut e = Elem::new(&format!("n{}", d));
+            if d % 7 == 0 {
+                e.attrs.push(("id".into(), val()));
+            }
+            e.items.push(Item::Elem(cur));
+            cur = e;
+        }
+        out.push(HistoryCase::plain(&format!("threshold-program:deep-distinct-{}", depth), vec![Doc::plain(cur)]));
+    }
     // two deep branches that differ only near the top
     {
         let mut branch = |top: &str, val: &mut dyn FnMut() -> String| {
